@@ -229,9 +229,9 @@ theorem prune_exact (evs : List Ev) (p : String) (cas : Cas) (d : Data) (tx : Bo
 
 /-- the window really moves: with max_versions = 2 the third write drops version 1 and keeps 2 and 3 -/
 example :
-    let s := run init [⟨.metaWrite "a" (some 2) none none, false, none⟩, ⟨.write "a" .absent [("k", "1")], false, none⟩,
+    let s := run init [⟨.metaWrite "a" ⟨some 2, none, none, none, none⟩, false, none⟩, ⟨.write "a" .absent [("k", "1")], false, none⟩,
       ⟨.write "a" .absent [("k", "2")], true, none⟩, ⟨.write "a" .absent [("k", "3")], false, none⟩]
-    metaRead (s.paths "a") = .metaInfo 3 2 2 false false 1 [(2, ⟨.none, false⟩), (3, ⟨.none, false⟩)] ∧
+    metaRead (s.paths "a") = .metaInfo 3 2 2 false false 1 [(2, ⟨.none, false⟩), (3, ⟨.none, false⟩)] [] ∧
     readPath (s.paths "a") 1 = .nil ∧ readPath (s.paths "a") 2 = .data 2 [("k", "2")] .none := by decide
 
 /-! ## read_version_exact -/
@@ -401,15 +401,16 @@ theorem ops_local (s : State) (p : String) (vs : List Int) (x : Nat) (hx : ∀ v
           exact hx v hvm (by simpa using hve)
         simp [this]
 
-/-- Deleting the latest version affects only the current version's entry; a metadata update affects no version entry
-and no data; reads change nothing at all. -/
+/-- Deleting the latest version affects only the current version's entry; a metadata update — PUT or PATCH — affects
+no version entry, no data and not the current version number; reads change nothing at all. -/
 theorem ops_local_other (s : State) (p : String) (x : Nat) :
     (x ≠ curVer s p → entry (step s (.delete p)).1 p x = entry s p x) ∧
     (∀ y, ((step s (.delete p)).1.paths p).blobs y = (s.paths p).blobs y) ∧
-    (∀ mx cr dva, (s.paths p).md ≠ none → entry (step s (.metaWrite p mx cr dva)).1 p x = entry s p x) ∧
-    (∀ mx cr dva y, ((step s (.metaWrite p mx cr dva)).1.paths p).blobs y = (s.paths p).blobs y) ∧
+    (∀ op, ((∃ a, op = Op.metaWrite p a) ∨ (∃ a, op = Op.metaPatch p a)) →
+      ((s.paths p).md ≠ none → entry (step s op).1 p x = entry s p x) ∧
+      (∀ y, ((step s op).1.paths p).blobs y = (s.paths p).blobs y) ∧ curVer (step s op).1 p = curVer s p) ∧
     (∀ v, (step s (.read p v)).1 = s) ∧ (step s (.metaRead p)).1 = s ∧ (step s .confRead).1 = s := by
-  refine ⟨?_, ?_, ?_, ?_, fun _ => rfl, rfl, rfl⟩
+  refine ⟨?_, ?_, ?_, fun _ => rfl, rfl, rfl⟩
   · intro hx
     simp only [step, stepF, entry, setPath_same]
     unfold deleteLatest
@@ -431,17 +432,23 @@ theorem ops_local_other (s : State) (p : String) (x : Nat) :
     unfold deleteLatest
     repeat' split
     all_goals rfl
-  · intro mx cr dva hmd
-    obtain ⟨m, hm⟩ := Option.ne_none_iff_exists'.mp hmd
-    simp only [step, stepF, entry, setPath_same]
-    unfold metaWrite
-    split
-    · rfl
-    · cases mx <;> cases cr <;> cases dva <;> simp [hm]
-  · intro mx cr dva y
-    simp only [step, stepF, setPath_same]
-    unfold metaWrite
-    split <;> rfl
+  · -- both handlers have the same shape: the path is untouched, or its metadata is replaced by one with the same versions
+    have shape : ∀ (ps' : PathSt) (r : Resp), SettingsShape (s.paths p) ps' r →
+        ((s.paths p).md ≠ none → entry (setPath s p ps') p x = entry s p x) ∧
+        (∀ y, ((setPath s p ps').paths p).blobs y = (s.paths p).blobs y) ∧ curVer (setPath s p ps') p = curVer s p := by
+      intro ps' r sh
+      rcases sh with e | ⟨m', e, sv, _⟩
+      · rw [e, setPath_self]; exact ⟨fun _ => rfl, fun _ => rfl, rfl⟩
+      · rw [e]
+        refine ⟨?_, fun _ => by rw [setPath_same], ?_⟩
+        · intro hmd
+          obtain ⟨m, hm⟩ := Option.ne_none_iff_exists'.mp hmd
+          simp only [entry, setPath_same, Option.bind_some, hm, sv.vers, metaOr_some _ m hm]
+        · unfold curVer; rw [setPath_same, metaOr_some _ m' rfl, sv.cur]
+    intro op hop
+    rcases hop with ⟨a, rfl⟩ | ⟨a, rfl⟩
+    · exact shape _ _ (metaWrite_shape s.cfg (s.paths p) a)
+    · exact shape _ _ (metaPatch_shape s.cfg (s.paths p) a)
 
 /-- non-vacuity: destroying version 2 leaves versions 1 and 3 readable with their own data -/
 example :
@@ -490,7 +497,7 @@ example :
     let f := stepEv s ⟨.write "a" .absent [("k", "lost")], false, some 2⟩
     f.2 = .err .storage ∧ (f.1.paths "a").blobs 2 = some [("k", "lost")] ∧
     (seqRun f.1 [.write "a" (.val 1) [("k", "2")], .read "a" 2, .metaRead "a"]).2 =
-      [.wrote 2 .none false, .data 2 [("k", "2")] .none, .metaInfo 2 0 0 false false 0 [(1, ⟨.none, false⟩), (2, ⟨.none, false⟩)]] := by
+      [.wrote 2 .none false, .data 2 [("k", "2")] .none, .metaInfo 2 0 0 false false 0 [(1, ⟨.none, false⟩), (2, ⟨.none, false⟩)] []] := by
   decide
 
 /-! ## kv_linearizable, cas_one_winner — every schedule of the per-key-lock model
@@ -600,6 +607,15 @@ theorem cas_one_winner (s0 : State) (ops : List Op) (p : String) (c : Int)
   rw [hl1] at hl2
   simp only [Option.some.injEq, Prod.mk.injEq] at hl2
   exact hl2.1
+
+/-- non-vacuity with a metadata PATCH thread: thread 1 (PATCH max_versions) takes the key lock and its local copy first,
+the writer (thread 0) is blocked until the PATCH has stored and released; no acknowledged version is lost -/
+example :
+    let s0 := (step init (.write "a" .absent [("k", "0")])).1
+    let cf := crun [1, 1, 0, 0, 1, 0, 1, 0, 0, 0, 0] (cinit s0 [.write "a" (.val 1) [("k", "x")], .metaPatch "a" ⟨some 5, none, none, none, none⟩])
+    cf.threads.map (fun th => match th.pc with | .done r => some r | _ => none) = [some (.wrote 2 .none false), some .nil] ∧
+    cf.log.map (·.1) = [1, 0] ∧
+    metaRead (cf.st.paths "a") = .metaInfo 2 0 5 false false 1 [(1, ⟨.none, false⟩), (2, ⟨.none, false⟩)] [] := by decide
 
 /-- … and exactly one when they present the current version: any number n ≥ 1 of writers all presenting
 `cas = current version`, every schedule in which all of them have finished — some thread was answered with success
